@@ -54,6 +54,12 @@ CHECKS["C07"] = dict(
    text="All ordered arm lists of length <=3 (quick) / <=4 (thorough) over every pattern of constructor depth <=2 (3 where a struct/option is nested), incl. nested and top-level or-patterns with and without an irrefutable alternative, for 9 scrutinee types (2- and 3-variant enums, recursive enum, struct, enum of struct, generic option at two instantiations, two tuple types), plus every pattern as a destructuring let and as an if-let: the match/let is rejected as non-exhaustive iff some value (all values up to depth 4 enumerated) is matched by no arm; every reported counterexample denotes at least one value and one that no arm matches; an if-let is flagged useless iff its pattern matches every value.",
    note="Arm-redundancy is not asserted (not in the statement); counterexample read existentially; type universe and pattern depth are the stated bounds.",
    design_ref="DESIGN.md §5 C07")
+CHECKS["C06"] = dict(
+   category="fault_enumeration",
+   technique="exhaustive enumeration of single-fault mutants: every applicable site of 13 guaranteed-ill-typed fault kinds, sites and types taken from the checked AST; oracle: error located in the mutated module, compile_sources returns Err",
+   text="tests/ + std/ (one accepted program, 16 smallest modules quick / all thorough): at every applicable site one edit per fault kind - operand/condition replaced by a literal of another type, argument of a closed declared parameter type replaced, argument added/removed, explicit type argument added, variable / class / member / imported member / module replaced by a fresh name, required interface method deleted, int literal replaced by 2147483648 / 99999999999, one arm of a distinct-variant match deleted, a private function or class used from a new module. Each mutant must yield >=1 error located in the mutated module; the first mutant per (file, kind) additionally runs compile_sources on the whole program and must get Err without panic.",
+   note="Ill-typedness is by construction (expected type fixed by operator or declared closed parameter type). Bound violations not generated.",
+   design_ref="DESIGN.md §5 C06")
 NOT_YET = "check not built yet in this round (planned: see DESIGN.md §5)"
 
 hooks_commits = subprocess.run(["git","-C","/repo","log","--format=%H %s"],capture_output=True,text=True).stdout.splitlines()
